@@ -113,6 +113,12 @@ M = Monitor(
                  "affine rank of subset and superset (own SVD, relative tolerance 1e-9)",
                  "the estimator's fraction is required to be > 0 only when its corner captures have two different "
                  "chromaticities (>= 2 sources that are not proportional); otherwise 0 is the correct value",
+                 "indeterminate band of flat clouds: a cloud that is flat in exact arithmetic is given with rounding noise "
+                 "(~1e-16 x its coordinates); in ~0.05% of the flat cases qhull accepts the noise as thickness and the code "
+                 "returns the d-volume (<= 1e-13 x) of the literal input instead of the k-volume of the flat cloud.  Pairs of "
+                 "values of which one is <= 1e-8 x the other are not compared (case counted unmet, cell "
+                 "'...:indeterminate-band'); the cells 'vol:flat:value-decided' / 'gamut:flat:volume-decided' and the "
+                 "min_held of clause volume_flat make a run inconclusive if flat clouds stop being decided",
                  "divergence: vectors with a positive entry (an all-zero vector has no normalised form); values <= 1e100"],
 )
 
